@@ -818,3 +818,153 @@ Proof.
     destruct (Z.leb_spec 1 ttl); [|lia]. reflexivity.
   - unfold Rfc.view_ip4. rewrite Esrc, Edst, Epl, Ettl, Epr, Eid. reflexivity.
 Qed.
+
+Lemma item_bytes_ok it : wf_item it -> bytes_ok (item_bytes it).
+Proof.
+  destruct it as [|m|w|v e| |bl]; cbn [wf_item item_bytes]; intros H.
+  - bytes_tac.
+  - repeat (apply Forall_cons; [unfold is_byte; Z.div_mod_to_equations; lia|]). apply Forall_nil.
+  - repeat (apply Forall_cons; [unfold is_byte; Z.div_mod_to_equations; lia|]). apply Forall_nil.
+  - apply Forall_app; split; [bytes_tac|]. apply Forall_app; split; apply be32_ok.
+  - bytes_tac.
+  - destruct H as [Hn _]. apply Forall_app; split.
+    + repeat (apply Forall_cons; [unfold is_byte; lia|]). apply Forall_nil.
+    + clear Hn. induction bl as [|b bl IH]; [constructor|]. cbn [flat_map]. apply Forall_app; split; [|exact IH].
+      unfold block_bytes. apply Forall_app; split; apply be32_ok.
+Qed.
+
+Lemma wire_ok items : Forall wf_item items -> bytes_ok (wire items).
+Proof.
+  induction 1 as [|it items Hit _ IH]; [constructor|].
+  rewrite wire_cons. apply Forall_app; split; [apply item_bytes_ok, Hit|exact IH].
+Qed.
+
+Lemma w32_range x : 0 <= w32 x < 4294967296.
+Proof. unfold w32. change (2^32) with 4294967296. apply Z.mod_pos_bound. lia. Qed.
+Lemma w16_range x : 0 <= w16 x < 65536.
+Proof. unfold w16. change (2^16) with 65536. apply Z.mod_pos_bound. lia. Qed.
+
+Lemma vsize_concat data : vsize data = Rfc.zlen (concat data).
+Proof. reflexivity. Qed.
+
+(* the TCP header as  16 bytes ++ checksum field ++ the rest  (for the verification lemmas) *)
+Lemma tcp_hdr_split sp dp sq ak n fl wn ck opts payload :
+  0 <= ck < 65536 \/ ck = 0 ->
+  tcp_hdr sp dp sq ak n fl wn ck opts ++ payload =
+  ([w8 (sp / 2^8); w8 sp; w8 (dp / 2^8); w8 dp] ++ be32 sq ++ be32 ak ++
+   [w8 (w8 (20 + n) / 4 * 2^4); w8 fl; w8 (wn / 2^8); w8 wn]) ++ (ck / 256) :: (ck mod 256) :: ([0; 0] ++ opts ++ payload).
+Proof. intros _. unfold tcp_hdr, be32. cbn [app]. reflexivity. Qed.
+
+Theorem tcp_frame_wf4 r sp dp data fl sq ak wnd items ttl c :
+  let opts := wire items in
+  let n := Z.of_nat (length opts) in
+  let L := 20 + n + vsize data in
+  rOffload r = false ->
+  length (rLocal r) = 4%nat -> length (rRemote r) = 4%nat -> bytes_ok (rLocal r) -> bytes_ok (rRemote r) ->
+  Rfc.src4_ok (rLocal r) = true ->
+  0 <= sp < 65536 -> 0 <= dp < 65536 -> 0 <= fl < 256 -> flag_sane fl = true ->
+  Forall wf_item items -> Forall (item_legal (Rfc.has fl Rfc.SYN)) items -> n <= 40 -> n mod 4 = 0 ->
+  Forall bytes_ok data -> nonfinal_even data -> 20 + L <= 65535 -> 1 <= ttl < 256 ->
+  exists hdr frame,
+    send_tcp r sp dp data fl sq ak wnd opts = Some hdr /\
+    ipv4_write r hdr data 6 ttl c = Some (frame, bucket_after (20 + L) c) /\
+    Rfc.wf_ipv4 false frame = true /\
+    Rfc.view_ip4 frame = Rfc.mkIV (rLocal r) (rRemote r) 6 ttl (id_of (20 + L) c) (hdr ++ concat data) /\
+    Rfc.view_tcp (hdr ++ concat data) =
+      Rfc.mkTV sp dp (w32 sq) (w32 ak) fl (w16 (clampw wnd)) 0 opts (concat data).
+Proof.
+  intros opts n L Hoff Ls Ld Bs Bd Hsrc Hsp Hdp Hfl Hsane Hwf Hleg Hn Hn4 Bdata Hev HL Httl.
+  assert (Hvs : 0 <= vsize data) by (unfold vsize; lia).
+  assert (Bo : bytes_ok opts) by apply wire_ok, Hwf.
+  destruct (send_tcp_flat r sp dp data fl sq ak wnd opts Hoff Bs Bd ltac:(lia) ltac:(lia) Bdata Hev Bo
+              ltac:(fold n; lia) Hn4 ltac:(fold n; fold L; lia)) as [Hsend Hu].
+  fold n in Hsend, Hu. fold L in Hsend, Hu.
+  set (wn := w16 (clampw wnd)) in *.
+  set (ck := xsum_of (rLocal r) (rRemote r) 6 L (tcp_hdr sp dp (w32 sq) (w32 ak) n fl wn 0 opts ++ concat data)) in *.
+  set (hdr := tcp_hdr sp dp (w32 sq) (w32 ak) n fl wn ck opts) in *.
+  assert (Lh : length hdr = (20 + length opts)%nat) by (subst hdr; unfold tcp_hdr, be32; rewrite !app_length; reflexivity).
+  assert (ELen : w16 (20 + Z.of_nat (length hdr) + vsize data) = 20 + L).
+  { rewrite Lh. unfold w16. change (2^16) with 65536. rewrite Z.mod_small; subst L n; lia. }
+  destruct (ipv4_write_flat r hdr data 6 ttl c Ls Ld Bs Bd) as (ckip & Hw & Huip & Hsumip).
+  rewrite ELen in Hw, Hsumip. change (w8 6) with 6 in Hw, Hsumip.
+  exists hdr, (ip4_hdr (20 + L) (w16 (fst (ipv4_next_id (20 + L) c))) ttl 6 ckip (rLocal r) (rRemote r) ++ hdr ++ concat data).
+  split; [exact Hsend|]. split; [exact Hw|].
+  (* the segment is well-formed under the IPv4 pseudo-header *)
+  assert (Ezl : Rfc.zlen (hdr ++ concat data) = L).
+  { unfold Rfc.zlen. rewrite app_length, Lh. subst L n. unfold vsize. lia. }
+  assert (Bdc : bytes_ok (concat data)) by (apply Forall_concat, Bdata).
+  assert (Htcp : Rfc.wf_tcp false (Rfc.pseudo4 (rLocal r) (rRemote r) 6) (hdr ++ concat data) = true /\
+                 Rfc.view_tcp (hdr ++ concat data) = Rfc.mkTV sp dp (w32 sq) (w32 ak) fl wn 0 opts (concat data)).
+  { apply wf_tcp_hdr; try assumption; try apply w32_range; try apply w16_range.
+    fold opts. fold n. fold hdr. rewrite Ezl.
+    subst hdr ck. rewrite tcp_hdr_split by (left; exact Hu). rewrite (tcp_hdr_split _ _ _ _ _ _ _ 0) by (right; reflexivity).
+    change (0 / 256) with 0. change (0 mod 256) with 0.
+    apply xsum_verifies4; try assumption; try lia.
+    - apply Forall_app; split; [bytes_tac|]. apply Forall_app; split; [apply be32_ok|].
+      apply Forall_app; split; [apply be32_ok|bytes_tac].
+    - apply Forall_app; split; [bytes_tac|]. apply Forall_app; split; assumption.
+    - reflexivity. }
+  destruct Htcp as [Hwf_tcp Hview].
+  destruct (wf_ipv4_hdr false (20 + L) (w16 (fst (ipv4_next_id (20 + L) c))) ttl 6 ckip (rLocal r) (rRemote r)
+              (hdr ++ concat data) Ls Ld Hsrc ltac:(rewrite Ezl; reflexivity) ltac:(subst L n; lia)
+              (w16_range _) Httl ltac:(lia) Huip Hsumip) as [W V].
+  { unfold transport4_ok. exact Hwf_tcp. }
+  split; [exact W|]. split; [exact V|exact Hview].
+Qed.
+
+(* ---------- the two option builders produce legal item lists ---------- *)
+Ltac legal_items := repeat (apply Forall_cons; [cbn [item_legal]; first [exact I | reflexivity]|]); apply Forall_nil.
+
+Lemma make_syn_options_wire o pool :
+  wf_syn o -> length pool = maxOptionSize ->
+  let items := syn_program o in
+  make_syn_options o pool = Some (wire items) /\
+  Forall wf_item items /\ Forall (item_legal true) items /\
+  Z.of_nat (length (wire items)) <= 40 /\ Z.of_nat (length (wire items)) mod 4 = 0.
+Proof.
+  intros (Hm & Hw & Hv & He) Hbuf items. subst items. unfold make_syn_options.
+  destruct o as [mss ws ts tsv tse sp]. cbn [sMSS sWS sTS sTSVal sTSEcr sSACKPermitted] in *.
+  unfold syn_program. cbn [sMSS sWS sTS sTSVal sTSEcr sSACKPermitted].
+  unfold maxOptionSize in Hbuf.
+  destruct ts, sp; cbn [andb app]; destruct (Z.leb_spec 0 ws) as [W|W]; cbn [app].
+  all: rewrite make_options_wire;
+         [|wf_items
+          |rewrite Hbuf; cbn [wire map concat item_bytes app length be32]; lia
+          |cbn [wire map concat item_bytes app length be32]; reflexivity].
+  all: cbn [obind fst snd]; change (0 =? 0) with true; cbv iota.
+  all: split; [reflexivity|]; split; [wf_items|]; split; [legal_items|].
+  all: cbn [wire map concat item_bytes app length be32]; split; [lia|reflexivity].
+Qed.
+
+Lemma make_seg_options_wire (tsOk : bool) tsVal tsEcr (sackPermitted : bool) blocks pool :
+  wf_opt tsVal tsEcr blocks -> length pool = maxOptionSize ->
+  (length blocks <= (if tsOk then 3%nat else 4%nat))%nat ->
+  let items := opt_program tsOk tsVal tsEcr sackPermitted blocks in
+  make_seg_options tsOk tsVal tsEcr sackPermitted blocks pool = Some (wire items) /\
+  Forall wf_item items /\ Forall (item_legal false) items /\
+  Z.of_nat (length (wire items)) <= 40 /\ Z.of_nat (length (wire items)) mod 4 = 0.
+Proof.
+  intros (Hv & He & Hbl) Hbuf Hn items. subst items. unfold make_seg_options, opt_program.
+  unfold maxOptionSize in Hbuf.
+  assert (Hb' : Forall (fun b => is_u32 (fst b) /\ is_u32 (snd b)) blocks) by exact Hbl.
+  assert (Hwf : Forall wf_item
+            ((if tsOk then [INop; INop; ITS tsVal tsEcr] else []) ++
+             (if sackPermitted && negb (Nat.eqb (length blocks) 0) then [INop; INop; ISack blocks] else []))).
+  { destruct tsOk; destruct (sackPermitted && negb (Nat.eqb (length blocks) 0)) eqn:ES; cbn [app];
+      try (apply andb_true_iff in ES as [_ ES]; apply negb_true_iff, Nat.eqb_neq in ES);
+      repeat (apply Forall_cons; [cbn [wf_item]; first [exact I | split; [assumption|assumption] | split; [lia|assumption]]|]); apply Forall_nil. }
+  assert (Hlen : exists k, length (wire ((if tsOk then [INop; INop; ITS tsVal tsEcr] else []) ++
+             (if sackPermitted && negb (Nat.eqb (length blocks) 0) then [INop; INop; ISack blocks] else []))) = (4 * k)%nat /\ (k <= 10)%nat).
+  { destruct tsOk; destruct (sackPermitted && negb (Nat.eqb (length blocks) 0));
+      cbn [app wire map concat item_bytes length be32]; rewrite ?app_nil_r, ?flat_map_block_length.
+    - exists (4 + 2 * length blocks)%nat. lia.
+    - exists 3%nat. lia.
+    - exists (1 + 2 * length blocks)%nat. lia.
+    - exists 0%nat. lia. }
+  destruct Hlen as (k & Hk & Hk10).
+  rewrite make_options_wire; [|exact Hwf|lia|rewrite Hk; Z.div_mod_to_equations; lia].
+  cbn [obind fst snd]. change (0 =? 0) with true. cbv iota.
+  split; [reflexivity|]. split; [exact Hwf|]. split.
+  - destruct tsOk; destruct (sackPermitted && negb (Nat.eqb (length blocks) 0)); cbn [app]; legal_items.
+  - rewrite Hk. split; [lia|Z.div_mod_to_equations; lia].
+Qed.
